@@ -49,10 +49,18 @@ def scenarios(ctx):
     # check brings it back (SuccNum 1) before the slow request finishes
     fixed.append({"retryMax": 0, "crossRetry": 0, "retryGet": False, "get": True, "nobody": True, "subA": ["flaky"], "subB": [],
                   "finishAt": 0, "finishAtEnd": False, "conc": 3, "flap": True})
+    # SPDY front end: a GET that carries a body must not be replayed although RetryGet is on; a body-less one may be
+    for nobody in (False, True):
+        fixed.append({"retryMax": 2, "crossRetry": 0, "retryGet": True, "get": True, "nobody": nobody, "subA": ["readhdr", "ok"],
+                      "subB": [], "finishAt": 0, "finishAtEnd": False, "conc": 1, "front": "spdy"})
+        fixed.append({"retryMax": 2, "crossRetry": 1, "retryGet": True, "get": True, "nobody": nobody, "subA": ["timeout"],
+                      "subB": ["ok"], "finishAt": 0, "finishAtEnd": False, "conc": 1, "front": "spdy"})
     for f in fixed:
         f.setdefault("flap", False)
+        f.setdefault("front", "h1")
     for c in cases:
         c.setdefault("flap", False)
+        c.setdefault("front", "h1")
     return fixed + cases
 
 
@@ -85,6 +93,8 @@ def run(ctx, cases, decisive):
             shape += "+end"
         if c.get("flap"):
             shape += "+flap"
+        if c.get("front", "h1") != "h1":
+            shape += "+" + c["front"]
         sig = "%s/%s/%s" % (b["why"], ev["ev"], shape)
         mine = [dict(e, **extra.get(i + 1, {})) for i, e in enumerate(events) if e["cid"] == b["cid"]]
         ctx.report(sig, "scenario %s; recorded: %s" % (json.dumps(c), str(mine)[:1500]), case=c,
